@@ -355,11 +355,17 @@ def run_enc(spec, ctx):
         ctx.exhaustive_sub.add(spec["claim"])
 
 
+# text that a decoder with opinions might "clean up": byte order marks, NUL, line separators, the ends of the planes
+SPECIAL_PREFIXES = ["\ufeff", "\ufeffa", "\ufeff\ufeff", "a\ufeff", "\ufffe", "\x00", "\x00a", "\r\n", "\u2028", "\u0085", "\ud7ff",
+                    "\ue000", "\uffff", "\U00010000", "\U0010ffff", " ", "\t", "\x7f", "\xa0", "\u200b", "\u0301"]
+TEXT_PREFIX = st.one_of(st.text(max_size=3), st.text(max_size=4), st.sampled_from(SPECIAL_PREFIXES))
+
+
 def frame_strategy():
     near = sorted(NEAR_BOUNDARY)
     length = st.one_of(st.integers(0, 300), st.sampled_from(near), st.integers(0, MAXLEN), st.integers(65000, 66000))
     return st.tuples(length, st.sampled_from(OPCODES), st.booleans(), st.binary(min_size=4, max_size=4),
-                     st.binary(min_size=1, max_size=8), st.text(max_size=4))
+                     st.binary(min_size=1, max_size=8), TEXT_PREFIX)
 
 
 def run_hyp_frame(spec, ctx):
@@ -657,13 +663,33 @@ MAX_READS = 20000
 
 @st.composite
 def stream_strategy(draw, extras=True):
-    n = draw(st.integers(1, 5))
+    n = draw(st.one_of(st.integers(1, 5), st.integers(1, 5), st.integers(1, 5), st.integers(6, 40), st.integers(30, 300))) if extras else draw(st.integers(1, 5))
     close_anywhere = extras and draw(st.integers(0, 3)) == 0
-    data_len = st.one_of(st.sampled_from(SMALL_LENS), st.sampled_from(SMALL_LENS), st.integers(0, 20), st.integers(0, 300),
+    if n > 5:
+        # a burst of many small frames (TCP coalesces them into few reads)
+        data_len = st.one_of(st.integers(0, 12), st.integers(0, 12), st.sampled_from([0, 1, 125, 126, 127]))
+        many = True
+    else:
+        many = False
+    data_len = data_len if many else st.one_of(st.sampled_from(SMALL_LENS), st.sampled_from(SMALL_LENS), st.integers(0, 20), st.integers(0, 300),
                          st.integers(0, 2000), st.sampled_from(BIG_LENS), st.integers(0, MAXLEN))
     ctl_len = st.one_of(st.sampled_from([0, 1, 2, 5, 124, 125]), st.integers(0, 125))
     frames = []
-    for i in range(n):
+    if many:
+        # few draws for many frames: opcodes, lengths and text prefixes cycle through short drawn lists, keys are derived
+        ops_c = draw(st.lists(st.sampled_from([TEXT, BINARY, TEXT, BINARY, PING, PONG]), min_size=1, max_size=6))
+        lens_c = draw(st.lists(data_len, min_size=1, max_size=7))
+        pre_c = draw(st.lists(TEXT_PREFIX, min_size=1, max_size=3))
+        salt = draw(st.integers(0, 2 ** 32 - 1))
+        for i in range(n):
+            op = ops_c[i % len(ops_c)]
+            length = lens_c[i % len(lens_c)]
+            if op in (PING, PONG):
+                length = min(length, 125)
+            h = hashlib.blake2b(b"C18/burst/%d/%d" % (salt, i), digest_size=7).digest()
+            frames.append({"op": op, "len": length, "key": h[:4].hex(), "pat": h[4:].hex(),
+                           "prefix": pre_c[i % len(pre_c)] if op == TEXT else ""})
+    for i in range(0 if many else n):
         ops = [TEXT, BINARY, TEXT, BINARY, PING, PONG]
         if i == n - 1 or close_anywhere:
             ops.append(CLOSE)
@@ -676,7 +702,7 @@ def stream_strategy(draw, extras=True):
             length = draw(ctl_len)
         key = draw(st.binary(min_size=4, max_size=4))
         pat = draw(st.binary(min_size=1, max_size=5))
-        prefix = draw(st.text(max_size=3)) if op == TEXT else ""
+        prefix = draw(TEXT_PREFIX) if op == TEXT else ""
         frames.append({"op": op, "len": length, "key": key.hex(), "pat": pat.hex(), "prefix": prefix})
     starts, hdrlens = [], []
     pos = 0
@@ -686,7 +712,10 @@ def stream_strategy(draw, extras=True):
         hdrlens.append(h)
         pos += h + fr["len"]
     total = pos
-    mode = draw(st.sampled_from(["one", "aligned", "merged", "every", "every", "random", "random", "struct", "struct", "mixed"]))
+    modes = ["one", "aligned", "merged", "every", "every", "random", "random", "struct", "struct", "mixed"]
+    if many:
+        modes = ["one", "one", "merged", "every", "random"]
+    mode = draw(st.sampled_from(modes))
     if mode == "one" or total < 2:
         cutspec = {"at": []}
     elif mode == "aligned":
@@ -754,6 +783,10 @@ def run_hyp_stream(spec, ctx):
             ctx.label("stream-joins-frames")
         if any(f["len"] > 65535 for f in frames):
             ctx.label("stream-has-64bit-frame")
+        if len(frames) > 32:
+            ctx.label("stream-burst-of-more-than-32-frames")
+        if any(f["op"] == TEXT and f["prefix"] in SPECIAL_PREFIXES and f["len"] >= len(f["prefix"].encode("utf-8")) for f in frames):
+            ctx.label("stream-text-with-special-leading-characters")
         if any(f["op"] == CLOSE for f in frames[:-1]):
             ctx.label("stream-frames-after-client-close")
         if "close_after" in cutspec:
